@@ -16,6 +16,7 @@
    correspondence): the tree theorem for a wildcard-selected sub-sequence, w=DIR with more
    than one missing path component or a trailing '/', p for MacOS members. *)
 From Lhasa Require Import Base Generated Header Fs FsRun Glob Reader CliFilter CliExtract CliMain InputStream ListOut P_ListOut P_FsExtract P_CliExtract P_CliTree.
+From Lhasa Require Properties_E2E.
 From Lhasa Require P_CliOverwrite P_CliTreeGen P_CliFlat P_CliWdir P_CliPrint P_CliFilterSkip P_MacContent P_MacExtract P_CliTreeAny.
 Local Open Scope N_scope.
 
@@ -175,6 +176,26 @@ Proof. exact P_MacContent.mac_extract_content. Qed.
 Theorem extract_archive_below_any : ltac:(let t := type of P_CliTreeAny.extract_archive_below_any in exact t).
 Proof. exact P_CliTreeAny.extract_archive_below_any. Qed.
 
+(* ====== END TO END (statements with their vocabulary: Properties_E2E.v) ======
+   From archive BYTES to the extracted tree, composed by the kernel out of C05 (header round
+   trip), C15/C12/C16 (the reader over any stream kind, first read through the scan), C03
+   (stored members), C17 (CRC), C07 (verdict good) and the tree theorem above:
+     e2e_cli_run: for every well-formed tree description ds (names, modes, times, bytes,
+       safe link targets as in S_Capstone.wf_desc), `lha x /arc/a.lzh` on the bytes
+       archive_of ds returns exit status 0 and leaves in the extraction directory exactly
+       trees_of ds; e2e_cli_run_found: every described file / link / directory is found at
+       its path with its contents, mode, time, target; e2e_cli_run_stdin: the same with the
+       archive on standard input (a pipe); e2e_upcoming: the reader delivers exactly the
+       described headers for every stream kind. *)
+Theorem e2e_upcoming : ltac:(let t := type of Properties_E2E.e2e_upcoming in exact t).
+Proof. exact Properties_E2E.e2e_upcoming. Qed.
+Theorem e2e_cli_run : ltac:(let t := type of Properties_E2E.e2e_cli_run in exact t).
+Proof. exact Properties_E2E.e2e_cli_run. Qed.
+Theorem e2e_cli_run_stdin : ltac:(let t := type of Properties_E2E.e2e_cli_run_stdin in exact t).
+Proof. exact Properties_E2E.e2e_cli_run_stdin. Qed.
+Theorem e2e_cli_run_found : ltac:(let t := type of Properties_E2E.e2e_cli_run_found in exact t).
+Proof. exact Properties_E2E.e2e_cli_run_found. Qed.
+
 Print Assumptions glob_correct.
 Print Assumptions wildcards_select_exactly.
 Print Assumptions extraction_instance.
@@ -197,3 +218,7 @@ Print Assumptions filter_next_file_skips.
 Print Assumptions mac_run_content.
 Print Assumptions mac_extract_content.
 Print Assumptions extract_archive_below_any.
+Print Assumptions e2e_upcoming.
+Print Assumptions e2e_cli_run.
+Print Assumptions e2e_cli_run_stdin.
+Print Assumptions e2e_cli_run_found.
